@@ -131,4 +131,8 @@ def replay_model(contract: dict, model: dict):
     shown = {k: repr(view(v, ()))[:300] for k, v in inputs.items()}      # proxies: safe repr of the entry state
     r = run_contract(contract, inputs)
     r['inputs'] = shown
+    opaque = contract.get('calls') or any(str(s_) in ('elem', 'list[elem]') or 'elem' in str(s_) for s_ in contract.get('params', {}).values())
+    if r.get('outcome') == 'fail' and r.get('raised') in ('AttributeError', 'TypeError') and opaque and not contract.get('concrete_inputs'):
+        # opaque objects (stores, callables, labels) cannot be built generically: a harness-made object failing is not evidence about /repo
+        return dict(outcome='spec-error', detail=f"replay harness cannot construct the opaque inputs of this contract ({r.get('failed')})", inputs=shown)
     return r
